@@ -170,7 +170,8 @@ def vtbl_c(trait, cont_ty, vt_ty):
     return VTBL_DOC % trait["name"] + "typedef struct %s {\n    %s\n} %s;\n" % (vt_ty, body, vt_ty)
 
 
-def render_c(api):
+def render_c_meta(api):
+    """-> (text, [(kind, text)] in header order) with kind in {'foreign', 'generic', 'cglue'}"""
     o = []
     o.append("#include <stdarg.h>\n#include <stdbool.h>\n#include <stdint.h>\n#include <stdlib.h>\n")
     blocks = []          # (is_foreign, text)
@@ -235,13 +236,13 @@ def render_c(api):
         cg("/**\n * Base CGlue trait object for trait %s.\n */\ntypedef struct %s %s;\n" % (t["name"], n["obj"], base))
         alias = "%s%s%s" % (t["name"], {"Arc": "Arc", "None": ""}[ob["ctx"]], ob["inner"])
         cg("/**\n * CtxBoxed CGlue trait object for trait %s with context.\n */\ntypedef %s %s;\n" % (t["name"], base, alias))
-    # generic `_Context` structs (what cbindgen leaves behind for aliases generic over the context)
+    # generic `_Context` structs (what cbindgen leaves behind for aliases generic over the context): the tool emits one copy per context
+    # it knows about (learned from the zero-sized RetTmp typedefs above)
     if api.get("generic_ctx"):
-        for g in api["groups"][:1]:
-            inner = g["variants"][0][0]
-            second = INNER_C[inner] + sep(INNER_GENERIC[inner]) + "Context"
-            cont = "%sContainer_%s" % (g["name"], second)
-            cg("typedef struct %s {\n    %s\n    Context context;\n} %s;\n" % (cont, INNER_FIELD_C[inner], cont))
+        inner = "Box" if uses_box else "Mut"
+        second = INNER_C[inner] + sep(INNER_GENERIC[inner]) + "Context"
+        cont = "GenContainer_%s" % second
+        blocks.append(("generic", "typedef struct %s {\n    %s\n    Context context;\n} %s;\n" % (cont, INNER_FIELD_C[inner], cont)))
     # interleave foreign blocks at the requested positions
     out_blocks = []
     fi = 0
@@ -253,6 +254,7 @@ def render_c(api):
     while fi < len(foreign):
         out_blocks.append((True, foreign[fi]))
         fi += 1
+    out_blocks = [(("foreign" if k is True else "cglue" if k is False else k), t) for k, t in out_blocks]
     o.append("\n".join(b for _, b in out_blocks))
     o.append("#ifdef __cplusplus\nextern \"C\" {\n#endif // __cplusplus\n")
     fns = []
@@ -264,7 +266,13 @@ def render_c(api):
         fns.append(f)
     o.append("\n".join(fns))
     o.append("#ifdef __cplusplus\n} // extern \"C\"\n#endif // __cplusplus\n")
-    return "\n".join(o), [b for f, b in out_blocks if f] + list(api.get("foreign_fns", []))
+    meta = out_blocks + [("foreign", f) for f in api.get("foreign_fns", [])]
+    return "\n".join(o), meta
+
+
+def render_c(api):
+    text, meta = render_c_meta(api)
+    return text, [t for k, t in meta if k == "foreign"]
 
 
 # ------------------------------------------------------------------------------------------------ C++ mode
